@@ -1,2 +1,6 @@
 import Rink.Props.C19
 import Rink.Props.C01
+import Rink.Props.C02
+import Rink.Props.C03
+import Rink.Props.C09
+import Rink.Props.C10
